@@ -73,16 +73,20 @@ def job_specs(draw, max_tasks: int = 14, min_tasks: int = 0, max_outs: int = 4, 
     # shape: probability of drawing an edge slot, and how far back sources are picked
     edge_pct = draw(st.sampled_from([0, 20, 50, 80, 100])) if shape_bias else 50
     chainy = draw(st.booleans())
+    # a sixth of the jobs use task / output names with dots and other punctuation: graph expansion names inner nodes "parent.child",
+    # and "task.output" is how a dataset id prints, so any encoding that goes through the printed form is ambiguous for them
+    odd_names = draw(st.integers(0, 5)) == 0
+    tname = (lambda k: (f"grp.t{k}" if k % 2 else f"n{k}.x.y")) if odd_names else (lambda k: task_name(k) if padded else f"t{k}")
     tasks: list[dict] = []
     for i in range(n):
         nouts = draw(st.sampled_from([1, 1, 1, 1, 2, 2, 3, max_outs, max_outs, 11, 12] if max_outs >= 4 else [1, 1, 1, 2, 3, max_outs]))
         if nouts == 1:
-            outs = [draw(st.sampled_from(["__default__", "0", "out"]))]
+            outs = [draw(st.sampled_from(["__default__", "0", "out"] + (["stats.mean", "a.b", "0.1", "x y", ".", "é.ü"] if odd_names else [])))]
         else:
             outs = [str(k) for k in range(nouts)]  # as the fluent API names them
             style = draw(st.integers(0, 5))
             if style == 0 and nouts <= 4:
-                outs = draw(st.permutations(["upper", "lower", "mid", "aux"][:nouts]))  # declared in any order; yields follow key order
+                outs = draw(st.permutations((["m.upper", "m.lower", "a.b.c", "d"] if odd_names else ["upper", "lower", "mid", "aux"])[:nouts]))  # declared in any order; yields follow key order
             elif style == 1:
                 outs = list(draw(st.permutations(outs)))  # numeric names, declared shuffled
         nargs = draw(st.sampled_from([0, 1, 1, 2, 2, 3, 3, 11, 12]))  # > 10 positions: "10" sorts before "2" as a string
@@ -104,7 +108,7 @@ def job_specs(draw, max_tasks: int = 14, min_tasks: int = 0, max_outs: int = 4, 
             if "e" in sl and draw(st.booleans()):
                 sl["d"] = draw(_static)
         tasks.append({
-            "name": task_name(perm[i]) if padded else f"t{perm[i]}",
+            "name": tname(perm[i]),
             "outs": outs,
             "gpu": bool(gpu and draw(st.integers(0, 9)) == 0),
             "args": args,
